@@ -32,10 +32,10 @@ type Prog struct {
 	tagOf   map[string]int
 	tagType []types.Type
 	// named types implementing interfaces (closed world)
-	allNamed []*types.Named
+	allNamed        []*types.Named
 	globalsAssigned map[*types.Var]bool
-	globalInit map[*types.Var]ast.Expr // initialiser expressions of package-level variables
-	effCache map[string]*Effects
+	globalInit      map[*types.Var]ast.Expr // initialiser expressions of package-level variables
+	effCache        map[string]*Effects
 }
 
 const ModulePath = "github.com/twpayne/go-geom"
